@@ -310,6 +310,27 @@ def _expand_comprehensions(func: ast.AST) -> int:
             if out is not None:
                 stmt.value = ast.copy_location(ast.Name("_ret", ast.Load()), stmt.value)
                 return out + [stmt]
+        # d. return [not] any(<generator>) / all(<generator>): the search loop it abbreviates
+        if isinstance(stmt, ast.Return) and stmt.value is not None:
+            val_, neg = stmt.value, False
+            if isinstance(val_, ast.UnaryOp) and isinstance(val_.op, ast.Not):
+                val_, neg = val_.operand, True
+            if (isinstance(val_, ast.Call) and isinstance(val_.func, ast.Name) and val_.func.id in ("any", "all") and len(val_.args) == 1 and not val_.keywords
+                    and isinstance(val_.args[0], (ast.GeneratorExp, ast.ListComp)) and "any" not in bound_outside and "all" not in bound_outside):
+                comp_ = val_.args[0]
+                is_any = val_.func.id == "any"
+                rename = fresh_names(comp_)
+                test = comp_.elt if is_any else _negate(copy.deepcopy(comp_.elt))
+                found = ast.copy_location(ast.Return(value=ast.Constant((is_any) != neg)), stmt)
+                leaf = ast.copy_location(ast.If(test=test, body=[found], orelse=[]), stmt)
+                _, ren = _loops_for(comp_, [leaf], rename)  # type: ignore[misc]
+                loops2, _ = _loops_for(comp_, [ren().visit(leaf)], rename)  # type: ignore[misc]
+                last = ast.copy_location(ast.Return(value=ast.Constant((not is_any) != neg)), stmt)
+                for mark in ("ngosa_inline",):
+                    if getattr(stmt, mark, None) is not None:
+                        setattr(found, mark, getattr(stmt, mark))
+                        setattr(last, mark, getattr(stmt, mark))
+                return loops2 + [last]
         return None
 
     def walk_block(block: list[ast.stmt]) -> None:
